@@ -92,6 +92,7 @@ theorem cancelJoin_bg (cfg : Cfg) (s : St) : BG (cancelJoin cfg s).2 := by
       · exact BG_andThen (addTimer_bg _ _ _) (fun _ => BG_nil)
     · simp [bg]
     · exact BG_andThen (stopCons_bg _ _) (fun _ => BG_nil)
+    · exact BG_nil
     · exact BG_andThen (by simp [bg]) (fun _ => rejoinCore_bg _ _ _)
     · exact BG_andThen (by simp [bg]) (fun _ => escapeCore_bg _ _ _)
     · exact BG_andThen (by simp [bg]) (fun _ => rejoinCore_bg _ _ _)
@@ -142,11 +143,30 @@ theorem coordStop_bg (cfg : Cfg) (s : St) (err : Option GErr) (user : Bool) : BG
     · exact BG_andThen (BG_andThen (BG_andThen (stopCancelDc_bg _) (fun _ => stopCancelHb_bg _ _)) (fun _ => stopLooper_bg _))
         (fun _ => leaveOrFinish_bg _ _ _ _)
 
-theorem stopCall_bg (cfg : Cfg) (s : St) (err : Option GErr) (user : Bool) : BG (stopCall cfg s err user).2 := by
-  unfold stopCall
+theorem drainDone_bg (s : St) (d : Drain) (ok : Bool) : BG (drainDone s d ok).2 := by
+  unfold drainDone
+  split
+  · exact BG_nil
+  · exact stopCons_bg _ _
+
+theorem beginDrain_bg (s : St) : BG (beginDrain s).2.1 := by
+  unfold beginDrain
+  intro o ho
+  simp only [List.mem_flatMap] at ho
+  obtain ⟨c, _, hc⟩ := ho
+  split at hc <;> simp at hc <;> rcases hc with rfl | rfl <;> rfl
+
+theorem stopLoop_bg (cfg : Cfg) (s : St) (err : Option GErr) (user : Bool) : BG (stopLoop cfg s err user).2 := by
+  unfold stopLoop
   split
   · exact coordStop_bg _ _ _ _
-  · exact BG_map_shutdown _
+  · simp only []
+    split
+    · exact BG_andThen (BG_andThen (beginDrain_bg s) (fun _ => drainDone_bg _ _ _)) (fun _ => coordStop_bg _ _ _ _)
+    · exact beginDrain_bg s
+
+theorem stopCall_bg (cfg : Cfg) (s : St) (err : Option GErr) (user : Bool) : BG (stopCall cfg s err user).2 :=
+  stopLoop_bg _ _ _ _
 
 theorem rejoinAfterError_bg (cfg : Cfg) (s : St) (e : GErr) : BG (rejoinAfterError cfg s e).2 := by
   unfold rejoinAfterError
@@ -161,11 +181,5 @@ theorem escape_bg (cfg : Cfg) (s : St) (e : GErr) : BG (escape cfg s e).2 := by
   split
   · exact BG_andThen (escapeCore_bg _ _ _) (fun _ => stopCall_bg _ _ _ _)
   · exact escapeCore_bg _ _ _
-
-theorem drainDone_bg (s : St) (d : Drain) (ok : Bool) : BG (drainDone s d ok).2 := by
-  unfold drainDone
-  split
-  · exact BG_nil
-  · exact stopCons_bg _ _
 
 end Afkak.Group
